@@ -32,6 +32,28 @@ def gen(rng, tier):
                 m = {k: short(k, v) for k, v in m.items()}
             msgs.append(iu.dict_text(m))
         cases.append({'kind': 'file', 'cfg': cfg, 'codec': codec, 'blocked': i % 2 == 0, 'msgs': msgs})
+    # records whose frames end within a few bytes of a 1012-byte payload boundary
+    targets = [t + d for t in (1012, 2024, 3036) for d in range(-6, 7)]
+    if tier == 'quick':
+        targets = [t for t in targets if (t % 1012) in (0, 1, 2, 3, 1009, 1010, 1011)]
+    for t in targets:
+        codec = rng.choice(['latin_1', 'cp500'])
+        body = t - 4 - 20            # frame = 4 + MTI 4 + bitmap 16 + elements
+        m = {'MTI': '1240'}
+        for de in ('DE54', 'DE72', 'DE111', 'DE127'):
+            if body <= 0:
+                break
+            n = min(999, body - 3)
+            if n < 1:
+                break
+            m[de] = iu.rand_text(rng, codec, n)
+            body -= n + 3
+        if body != 0:
+            m['DE2'] = '4' * max(1, body - 2) if body >= 3 else None
+            if m['DE2'] is None:
+                del m['DE2']
+        msgs = [iu.dict_text(m), iu.dict_text(iu.rand_message_fit(rng, pk, codec, nbits=3))]
+        cases.append({'kind': 'file', 'cfg': None, 'codec': codec, 'blocked': True, 'msgs': msgs})
     for i in range(40 if tier == 'quick' else 600):
         k = rng.choice([2, 3, 4])
         insts = []
